@@ -247,8 +247,19 @@ def s3_check(fx, fr):
         p = callee_path(t["callee"]) or ""
         if not p.endswith("::skip_bytes_to") or len(t["args"]) < 2:
             return False
-        s_ = body.op_str(t["args"][1])
-        return s_ in ("Add(start, size).0", "end") or s_.replace(" ", "") in ("Add(start,size).0",)
+        # the target is box_start() + size, however it is spelled (a local, a one-expression helper such as end_of(start, size))
+        c_ = body.canon_op(t["args"][1]).replace(" ", "")
+        if c_ in ("Add($2,mp4box::box_start($1))", "Add(mp4box::box_start($1),$2)"):
+            return True
+        m_ = re.fullmatch(r"([\w:]+)\((mp4box::box_start\(\$1\)|\$2),(mp4box::box_start\(\$1\)|\$2)\)", c_)
+        if m_ and m_.group(2) != m_.group(3):
+            import absint
+            cands = [g for g in fx.fns if g == m_.group(1) or g.endswith("::" + m_.group(1).split("::")[-1])]
+            for g in cands:
+                tr_ = absint._trivial_expr(fx, g)
+                if tr_ is not None and tr_[0] == "bin" and tr_[1] == "Add" and {tr_[2], tr_[3]} == {("p", 1), ("p", 2)}:
+                    return True
+        return False
     seeks = [b for b, t in body.calls() if is_end_seek(b, t)]
     for o in oks:
         doms = [sb for sb in seeks if body.dominates(sb, o)]
